@@ -12,6 +12,7 @@ import (
 	"net"
 	"strconv"
 	"strings"
+	"sync"
 	"testing"
 	"time"
 
@@ -30,6 +31,9 @@ type Beh struct {
 	Status int               `json:"status,omitempty"`
 	Body   string            `json:"body,omitempty"`
 	Header map[string]string `json:"header,omitempty"`
+	// kind ok with an empty Body: the body is an HTML catalogue page whose items carry these data-price attributes
+	// ("-": the item has no such attribute); see catalogPage
+	Prices []string `json:"prices,omitempty"`
 }
 
 var misKinds = []string{"status", "empty", "huge", "bad_status_line", "bad_header", "bad_chunk", "close", "reset", "stall", "short_body", "garbage"}
@@ -57,6 +61,9 @@ func (b Beh) resp() target.Resp {
 			h[k] = v
 		}
 		body := b.Body
+		if body == "" && len(b.Prices) > 0 {
+			body = catalogPage(b.Prices)
+		}
 		if body == "" {
 			body = `{"key": "value", "items": [1, 2, 3]}`
 		}
@@ -98,6 +105,13 @@ type HTTPCase struct {
 	Instances int   `json:"instances"`
 	KeepAlive bool  `json:"keep_alive"`
 	Connect   bool  `json:"connect_gun"` // gun type connect (CONNECT tunnel to the target first)
+	// connect gun with `connect-ssl: true`: the connection that carries the CONNECT request (and then the tunnel) is
+	// TLS, so the target's listener is a TLS one
+	ConnectSSL bool `json:"connect_ssl,omitempty"`
+	// The target goes away: its listener stops listening right before it serves its DownAfter-th connection, every
+	// later connection attempt is refused (DownAfter 0: nothing listens from the start).
+	Down      bool `json:"down,omitempty"`
+	DownAfter int  `json:"down_after,omitempty"`
 }
 
 func genHTTP(t *rapid.T) HTTPCase {
@@ -109,7 +123,16 @@ func genHTTP(t *rapid.T) HTTPCase {
 	}
 	c.Instances = rapid.IntRange(1, 3).Draw(t, "instances")
 	c.KeepAlive = rapid.Bool().Draw(t, "keepAlive")
-	c.Connect = rapid.IntRange(0, 3).Draw(t, "connectGun") == 0
+	c.Connect = rapid.IntRange(0, 2).Draw(t, "connectGun") == 0
+	if c.Connect {
+		c.ConnectSSL = rapid.Bool().Draw(t, "connectSSL")
+	}
+	if rapid.IntRange(0, 3).Draw(t, "goesAway") == 0 {
+		c.Down = true
+		// with keep-alives off every request needs a connection of its own, so any number below n leaves requests
+		// that are refused; 0 = the target is not up at all
+		c.DownAfter = rapid.IntRange(0, n-1).Draw(t, "downAfter")
+	}
 	return c
 }
 
@@ -171,9 +194,25 @@ func runPool(pool map[string]any) error {
 }
 
 func checkHTTP(c HTTPCase, o *vf.Obs) error {
-	tg, mu := target.Shared(false)
-	mu.Lock()
-	defer mu.Unlock()
+	var tg *target.HTTP
+	if c.Down || c.ConnectSSL {
+		// a listener of its own: TLS for connect-ssl, going away after some connections
+		after := -1
+		if c.Down {
+			after = c.DownAfter
+		}
+		ln, err := target.ListenGoAway(after)
+		if err != nil {
+			return fmt.Errorf("harness: %v", err)
+		}
+		tg = target.NewHTTPOn(ln, c.ConnectSSL)
+		defer tg.Close()
+	} else {
+		var mu *sync.Mutex
+		tg, mu = target.Shared(false)
+		mu.Lock()
+		defer mu.Unlock()
+	}
 	tg.Reset(func(seq int, r *target.Rec) target.Resp {
 		i := entryIndex(r.RequestURI)
 		if i < 0 || i >= len(c.Behs) {
@@ -192,7 +231,7 @@ func checkHTTP(c HTTPCase, o *vf.Obs) error {
 	pool := map[string]any{
 		"id": "p",
 		"gun": map[string]any{"type": gunType(c.Connect), "target": tg.Addr(), "response-header-timeout": "400ms",
-			"disable-keep-alives": !c.KeepAlive},
+			"disable-keep-alives": !c.KeepAlive, "connect-ssl": c.ConnectSSL},
 		"ammo":    map[string]any{"type": "uri", "file": name, "passes": 1},
 		"result":  map[string]any{"type": "phout", "destination": out},
 		"rps":     map[string]any{"type": "once", "times": len(c.Behs) + 5},
@@ -212,11 +251,25 @@ func checkHTTP(c HTTPCase, o *vf.Obs) error {
 	for _, l := range lines {
 		byTag[l.tag] = l
 	}
-	mis, goodAfterMis := 0, false
+	reached := map[int]bool{}
+	for _, r := range tg.Records() {
+		reached[entryIndex(r.RequestURI)] = true
+	}
+	mis, goodAfterMis, refused := 0, false, 0
 	for i, b := range c.Behs {
 		l, ok := byTag[fmt.Sprintf("t%d", i)]
 		if !ok {
 			return fmt.Errorf("no sample for request %d (%s)\n%s", i, b.Kind, data)
+		}
+		if c.Down && !reached[i] {
+			// the target was gone: the connection was refused (or was reset in the backlog when the listener went
+			// down); no status was received, the sample has to carry the failure
+			refused++
+			if l.proto != 0 || l.net == 0 {
+				return fmt.Errorf("request %d never reached the target (it went away after %d connections), but its sample says proto=%d net=%d, not a failure\n%s",
+					i, c.DownAfter, l.proto, l.net, data)
+			}
+			continue
 		}
 		if b.Kind == "ok" {
 			if l.proto != 200 || l.net != 0 {
@@ -235,6 +288,13 @@ func checkHTTP(c HTTPCase, o *vf.Obs) error {
 	}
 	o.ClassIf(c.Instances >= 2, "instances_ge_2")
 	o.ClassIf(c.Connect, "connect_gun")
+	o.ClassIf(c.ConnectSSL, "connect_ssl")
+	o.ClassIf(c.Down, "target_goes_away")
+	o.ClassIf(c.Down && c.DownAfter == 0, "target_never_up")
+	o.ClassIf(refused > 0, "refused_seen")
+	o.ClassIf(refused > 0 && refused < len(c.Behs), "refused_after_served")
+	o.ClassIf(refused > 0 && c.Connect, "connect_gun_refused")
+	o.ClassIf(refused > 0 && c.ConnectSSL, "connect_ssl_refused")
 	if mis > 0 && goodAfterMis {
 		o.NonTrivial()
 	}
